@@ -239,6 +239,11 @@ def structural_ok(fname, descs, sel):
     kinds = [d["kind"] for d in descs if "kind" in d]
     if not kinds or fname not in S.STRUCTURAL or kinds[0] not in S.STRUCTURAL[fname]:
         return None
+    want = S.STRUCTURAL_VARIANT.get((fname, kinds[0]))
+    if want is not None:
+        first = [d for d in descs if "kind" in d][0]
+        if first.get("variant") != want:
+            return None
     for t in sel.types:
         if inspect.isclass(t) and issubclass(t, LinearOperator):
             return t is not LinearOperator
